@@ -386,8 +386,16 @@ func (b *assignmentBuilder) isStructFieldAccessible(structNode bmodel.Node, leaf
 	if named, ok := structType.(*types.Named); ok {
 		return !b.isExternalPkg(named.Obj().Pkg()) || ast.IsExported(leafName)
 	}
+	// An unnamed struct type: its members belong to the package that declares them,
+	// e.g. an anonymous struct used as a field type inside an imported type.
+	if strct, ok := structType.Underlying().(*types.Struct); ok {
+		for i := 0; i < strct.NumFields(); i++ {
+			if field := strct.Field(i); field.Name() == leafName {
+				return !b.isExternalPkg(field.Pkg()) || ast.IsExported(leafName)
+			}
+		}
+	}
 	return true
-
 }
 
 // isExternalPkg returns true if the given package is not the current package.
